@@ -137,6 +137,20 @@ func (a *Agent) VerifRelaySnapshot(kind string) VerifRelaySnapshot {
 	return verifSnapshot(a.tcpRelay)
 }
 
+// VerifForwardedOrigIDs returns, for the given forwardedControl keys, the
+// request ids the requesters used.
+func (a *Agent) VerifForwardedOrigIDs(keys []uint64) []uint64 {
+	a.controlMu.RLock()
+	defer a.controlMu.RUnlock()
+	out := make([]uint64, len(keys))
+	for i, k := range keys {
+		if f := a.forwardedControl[k]; f != nil {
+			out[i] = f.RequestID
+		}
+	}
+	return out
+}
+
 // VerifControlState returns the request ids of pendingControl (sorted), the
 // forwardedControl map as (id, source peer) sorted by id, and nextControlID.
 func (a *Agent) VerifControlState() (pending []uint64, fwdIDs []uint64, fwdPeers []identity.AgentID, next uint64) {
